@@ -196,6 +196,13 @@ class Run:
                     self.note(["C01"], "insert returns %r" % r)
                 if db._auto_index and was_valid and (prev_max is None or p.time >= prev_max) and not db.index.valid:
                     self.note(["C06"], "in-order insert invalidated the index")
+                if db._auto_index and not db.index.valid:
+                    # C06 "any read leaves the index valid": right after an out-of-order insert, before any other read
+                    for what, fn in (("len(db)", lambda: len(db)), ("iter(db)", lambda: list(iter(db))), ("len(db.measurement('m0'))", lambda: len(db.measurement("m0")))):
+                        fn()
+                        if not db.index.valid:
+                            self.note(["C06"], "auto_index on, but the index is still invalid after the read %s" % what, plain=True)
+                            break
             elif kind == "insm":
                 pts = [mkpoint(n) if n != "BAD" else 5 for n in op[1]]
                 good = []
